@@ -314,6 +314,33 @@ def value_observations(rng, n):
         pal = PositionAndLook(x=1, y=2, z=3, yaw=4, pitch=5)
         do(lambda: setattr(pal, 'position', (v[0], v[1], v[2])))
         obs.append({'k': 'alias', 'set': v[:3], 'got': got(lambda: [pal.x, pal.y, pal.z])})
+    # aliases an application declares itself with the documented keyword form (container field = attribute name), the
+    # keywords in any order, the container with attributes only (not iterable)
+    from minecraft.utility import multi_attribute_alias as _maa
+    from minecraft.networking.types import Direction as _Dir
+
+    class _Span(object):
+        def __init__(self, lo=None, hi=None):
+            self.lo, self.hi = lo, hi
+
+    class _App(object):
+        look = _maa(_Dir, pitch='p', yaw='w')
+        pos_look = _maa(PositionAndLook, yaw='a', pitch='b', x='c', y='d', z='e')
+        span = _maa(_Span, hi='top', lo='bottom')
+        mixed = _maa(Vector, 'u', 'v', z='w2')
+    for j in range(max(4, n // 20)):
+        v = [rng.randint(-99, 99) for _ in range(5)]
+        a = _App()
+        do(lambda: setattr(a, 'look', _Dir(yaw=v[0], pitch=v[1])))
+        obs.append({'k': 'alias', 'set': v[:2], 'got': got(lambda: [a.w, a.p]), 'where': 'application alias (keywords, permuted) (write)'})
+        obs.append({'k': 'alias', 'set': v[:2], 'got': got(lambda: [a.look.yaw, a.look.pitch]), 'where': 'application alias (keywords, permuted) (read)'})
+        do(lambda: setattr(a, 'pos_look', PositionAndLook(x=v[0], y=v[1], z=v[2], yaw=v[3], pitch=v[4])))
+        obs.append({'k': 'alias', 'set': v, 'got': got(lambda: [a.c, a.d, a.e, a.a, a.b]), 'where': 'application alias (5 keywords, permuted) (write)'})
+        do(lambda: setattr(a, 'span', _Span(lo=v[0], hi=v[1])))
+        obs.append({'k': 'alias', 'set': v[:2], 'got': got(lambda: [a.bottom, a.top]), 'where': 'application alias (container not iterable) (write)'})
+        obs.append({'k': 'alias', 'set': v[:2], 'got': got(lambda: [a.span.lo, a.span.hi]), 'where': 'application alias (container not iterable) (read)'})
+        do(lambda: setattr(a, 'mixed', Vector(v[2], v[3], v[4])))
+        obs.append({'k': 'alias', 'set': v[2:], 'got': got(lambda: [a.u, a.v, a.w2]), 'where': 'application alias (positional + keyword) (write)'})
     # every alias the library declares, found by walking its packet classes (and the records nested in them): set through
     # the alias and read the aliased attributes, set the attributes and read through the alias
     for (cls, attr, names, kw) in discover_aliases():
